@@ -577,6 +577,225 @@ def gen_variants(rng, world, conv):
             tags.append(tag)
     return rows, tags
 
+
+# ------------------------------------------------------------------ collision worlds (engineered)
+# Duplicated coding genes / isoforms that encode identical (or near-identical) proteins with DIFFERENT cds_start_NF
+# tags in either order, plus engineered third genes whose variant / novel-ORF / alt-translation peptide equals a
+# canonical peptide of those proteins in one of the forms the pool contains: plain, N-terminal without the initiator
+# Met, I->L image, k-miscleaved.  Whether the engineered peptide really is canonical is decided by the C10 MODEL's pool
+# (probe), never by the implementation; whether the caller would have written it otherwise is measured on a control
+# world in which the duplicated proteins carry one different residue inside the target.
+_SEG_AA = 'ADEGHLNQSTVYIFIFAL'
+
+def _mk_seg(rng, n, first=False, last=False):
+    body = [rng.choice(_SEG_AA) for _ in range(n - 1)]
+    body[rng.randrange(len(body))] = rng.choice('IF')
+    if first:
+        body[0] = 'M'
+    return ''.join(body) + (rng.choice('AGSL') if last else rng.choice('KR'))
+
+def _filler(rng):
+    return ''.join(rng.choice('ADEGHNQSTVY') for _ in range(rng.randint(3, 6))) + rng.choice('KR')
+
+def _snv_neighbour(rng, aa, forbid='KRP*'):
+    """(codon for aa, position, alt base, aa') : one base change giving another sense residue outside `forbid`"""
+    cands = []
+    for cod in G.BACK[aa]:
+        for j in range(3):
+            for b in 'ACGT':
+                if b != cod[j]:
+                    new = cod[:j] + b + cod[j + 1:]
+                    a2 = G.CODON[new]
+                    if a2 != aa and a2 not in forbid:
+                        cands.append((new, j, cod[j], a2))      # engineered codon `new`; SNV new[j] -> cod[j] restores aa
+    return rng.choice(cands) if cands else None
+
+class _Layout:
+    """single-exon genes laid out on one chromosome, either strand; transcript text is written strand-aware"""
+    def __init__(self, rng):
+        self.rng, self.chrom, self.genes, self.n = rng, list(G.rand_dna(rng, rng.randint(10, 30)).replace('ATG', 'ACG')), [], 0
+    def _pad(self, n):
+        s = G.rand_dna(self.rng, n)
+        while 'ATG' in s or 'CAT' in s:
+            s = s.replace('ATG', 'ACG').replace('CAT', 'CGT')
+        return s
+    def add_gene(self, txs, biotype='protein_coding', strand=None):
+        """txs: list of dict(offset, seq(whole gene text in gene orientation is txs[0]['text']), cds, tags) ;
+        all transcripts are suffix-windows [offset, L) of the same gene text"""
+        rng = self.rng
+        self.n += 1
+        text = txs[0]['text']
+        strand = strand or rng.choice([1, -1])
+        s = len(self.chrom)
+        self.chrom += list(text if strand == 1 else G.revcomp(text))
+        e = len(self.chrom)
+        self.chrom += list(self._pad(rng.randint(8, 25)))
+        gene = {'id': 'ENSG%011d.%d' % (self.n, rng.randint(1, 9)), 'name': 'COL%d' % self.n, 'chrom': 'chr1', 'strand': strand,
+                'biotype': biotype, 'transcripts': [], 'start': s, 'end': e}
+        for i, t in enumerate(txs):
+            u = t.get('offset', 0)
+            exons = [[s + u, e]] if strand == 1 else [[s, e - u]]
+            tid = 'ENST%011d.%d' % (self.n * 10 + i, rng.randint(1, 9))
+            tx = {'id': tid, 'protein_id': ('ENSP' + tid[4:]) if t.get('cds') else None, 'exons': exons, 'cds': t.get('cds'),
+                  'frame': 0, 'tags': list(t.get('tags', [])), 'sec': [], 'utr': rng.random() < 0.5,
+                  'biotype': biotype if (t.get('cds') or biotype != 'protein_coding') else 'processed_transcript'}
+            if t.get('cds'):
+                tx['cds_feature_start'] = t['cds'][0]
+            gene['transcripts'].append(tx)
+        self.genes.append(gene)
+        return gene
+    def world(self):
+        return {'chroms': {'chr1': ''.join(self.chrom)}, 'genes': self.genes}
+
+def _coding_text(rng, lay, prot, nf=False, stop=None):
+    utr5 = '' if nf else lay._pad(rng.randint(6, 24))
+    cds = G.backtranslate(rng, prot)
+    text = utr5 + cds + (stop or rng.choice(['TAA', 'TAG', 'TGA'])) + lay._pad(rng.randint(6, 20))
+    return text, len(utr5), len(utr5) + len(cds)
+
+def gen_collision_case(rng, control=False):
+    for _ in range(40):
+        c = _gen_collision_case(rng, control)
+        if c is not None:
+            return c
+    raise RuntimeError('collision generator failed')
+
+def _gen_collision_case(rng, control):
+    nseg = rng.randint(4, 6)
+    segs = [_mk_seg(rng, rng.randint(7, 11), first=(i == 0), last=(i == nseg - 1 and rng.random() < 0.5)) for i in range(nseg)]
+    P = ''.join(segs)
+    k = rng.choice([0, 1, 2, 2])
+    # ---- targets, one per caller
+    def pick(need_f=False):
+        form = rng.choice(['plain', 'metless', 'metless', 'i2l', 'misc', 'metless+i2l'] if k >= 1 else
+                          ['plain', 'metless', 'metless', 'i2l', 'metless+i2l'])
+        if form.startswith('metless'):
+            i, T = 0, segs[0][1:]
+        elif form == 'misc':
+            i = rng.randint(0, nseg - 2)
+            T = segs[i] + segs[i + 1]
+            if i == 0 and rng.random() < 0.5:
+                T = T[1:]; form = 'metless+misc'
+        else:
+            i = rng.randint(0, nseg - 1)
+            T = segs[i]
+        E = T.replace('I', 'L') if 'i2l' in form else T
+        if 'i2l' in form and 'I' not in T:
+            return None
+        if need_f and 'F' not in E:
+            return None
+        return dict(form=form, seg=i, T=T, E=E)
+    tv, tn, ta = pick(), pick(), pick(need_f=True)
+    if tv is None or tn is None:
+        return None
+    # control: the duplicated proteins get one other residue inside every target, so that no E is canonical any more
+    Pd = P
+    if control:
+        pd = list(P)
+        for t in (tv, tn, ta):
+            if t is None:
+                continue
+            a = P.find(t['T'])
+            cand = [j for j in range(a + 1, a + len(t['T']) - 1) if P[j] not in 'KRIFM']
+            if not cand:
+                return None
+            j = rng.choice(cand)
+            pd[j] = 'G' if pd[j] != 'G' else 'A'
+        Pd = ''.join(pd)
+    lay = _Layout(rng)
+    mode = rng.choice(['genes', 'genes', 'isoforms'])
+    nf_first = rng.random() < 0.6
+    near = mode == 'genes' and rng.random() < 0.25
+    P2 = Pd
+    if near:                       # near-identical: one residue differs in the LAST segment only
+        j = len(Pd) - rng.randint(2, 4)
+        if Pd[j] in 'KRIFM':
+            return None
+        P2 = Pd[:j] + ('S' if Pd[j] != 'S' else 'T') + Pd[j + 1:]
+    tag_pattern = rng.choice(['nf_other', 'nf_other', 'nf_other', 'both_full', 'both_nf'])
+    def dup_genes():
+        specs = []
+        for idx, prot in enumerate([Pd, P2]):
+            nf = {'nf_other': (idx == 0) == nf_first, 'both_full': False, 'both_nf': True}[tag_pattern]
+            specs.append((prot, nf))
+        return specs
+    if mode == 'genes':
+        for prot, nf in dup_genes():
+            text, cs, ce = _coding_text(rng, lay, prot, nf=nf)
+            lay.add_gene([dict(text=text, cds=[cs, ce], tags=['cds_start_NF'] if nf else [])])
+    else:
+        # two isoforms of one gene: the full transcript and the window starting exactly at the CDS start (cds_start_NF)
+        text, cs, ce = _coding_text(rng, lay, Pd, nf=False)
+        full = dict(text=text, offset=0, cds=[cs, ce], tags=[])
+        nfw = dict(text=text, offset=cs, cds=[0, ce - cs], tags=['cds_start_NF'])
+        if tag_pattern == 'both_full':
+            u = rng.randint(1, max(1, cs - 1))
+            nfw = dict(text=text, offset=u, cds=[cs - u, ce - u], tags=[])
+        txs = [nfw, full] if nf_first else [full, nfw]
+        txs[0]['text'] = text
+        lay.add_gene(txs)
+    gvf = []
+    # ---- third gene for callVariant: ... K E' tail, an SNV turns E' into E
+    def tail_of(t):
+        E = t['E']
+        return (rng.choice('ADEGS') + _filler(rng)) if E[-1] in 'KR' else ''
+    E = tv['E']
+    cand = [j for j in range(1, len(E) - 1) if E[j] not in 'KR']
+    rng.shuffle(cand)
+    eng = None
+    for j in cand:
+        r = _snv_neighbour(rng, E[j])
+        if r:
+            eng = (j, r); break
+    if eng is None:
+        return None
+    j, (newcod, bj, refbase_restored, aa2) = eng
+    Ep = E[:j] + aa2 + E[j + 1:]
+    pre = 'M' + _filler(rng)
+    Q = pre + Ep + tail_of(tv)
+    utr5 = lay._pad(rng.randint(6, 20))
+    cds = G.backtranslate(rng, Q)
+    p0 = 3 * (len(pre) + j)
+    cds = cds[:p0] + newcod + cds[p0 + 3:]
+    stop = rng.choice(['TAA', 'TAG', 'TGA'])
+    text = utr5 + cds + stop + lay._pad(rng.randint(6, 20))
+    gC = lay.add_gene([dict(text=text, cds=[len(utr5), len(utr5) + len(cds)], tags=[])])
+    gs = len(utr5) + p0 + bj
+    ref, alt = newcod[bj], refbase_restored
+    gvf.append([gC['id'], gs + 1, 'SNV-%d-%s-%s' % (gs + 1, ref, alt), ref, alt, gC['transcripts'][0]['id'], gC['name']])
+    # ---- third gene for callNovelORF: a non-coding transcript carrying an ORF  M filler K E tail stop
+    En = tn['E']
+    if tn['form'].startswith('metless') and 'misc' not in tn['form'] and rng.random() < 0.5:
+        orf = 'M' + En + tail_of(tn)                    # the ORF starts like the duplicated proteins themselves
+    else:
+        orf = 'M' + _filler(rng) + En + tail_of(tn)
+    text = lay._pad(rng.randint(5, 20)) + G.backtranslate(rng, orf) + rng.choice(['TAA', 'TAG', 'TGA']) + lay._pad(rng.randint(5, 20))
+    lay.add_gene([dict(text=text, cds=None, tags=[])], biotype='lncRNA')
+    # ---- third gene for callAltTranslation: ... K E[F->W] tail ; W>F reassignment gives E
+    if ta is not None:
+        Ea = ta['E']
+        fpos = [x for x in range(len(Ea)) if Ea[x] == 'F']
+        x = rng.choice(fpos)
+        Ew = Ea[:x] + 'W' + Ea[x + 1:]
+        Qa = 'M' + _filler(rng) + Ew + tail_of(ta)
+        text, cs, ce = _coding_text(rng, lay, Qa, nf=False)
+        lay.add_gene([dict(text=text, cds=[cs, ce], tags=[])])
+    w = lay.world()
+    if not world_consistent(w):
+        return None
+    exc = rng.choice(['auto', 'auto', 'trypsin_exception', 'None'])
+    g = rng.choice([0, 300, 500]) * 10000 + rng.randrange(0, 10000)
+    run = dict(rule='trypsin', exc=exc, k=k, mw4=g, min_mw=g / 10000.0 + 0.00005, min_len=rng.choice([5, 7]), max_len=25,
+               cmds=['variant', 'novel', 'alt'],
+               variant_flags=(['--w2f-reassignment'] if rng.random() < 0.3 else []) + (['--coding-novel-orf'] if rng.random() < 0.3 else []),
+               novel_flags=['--orf-assignment', rng.choice(['max', 'min'])] + (['--coding-novel-orf'] if rng.random() < 0.6 else []),
+               alt_flags=['--w2f-reassignment'] + (['--selenocysteine-termination'] if rng.random() < 0.3 else []))
+    return dict(kind='e2e', world=w, gvf_files=[gvf], runs=[run], tags=['collision'], motif=False, paralogs=0,
+                collision=dict(control=control, mode=mode, nf_first=nf_first, near=near, tag_pattern=tag_pattern,
+                               targets={'variant': tv, 'novel': tn, 'alt': ta}),
+                probe=[tv['E'], tn['E']] + ([ta['E']] if ta else []),
+                probe_cmds=['variant', 'novel'] + (['alt'] if ta else []))
+
 def gen_run(rng, names, auto=None):
     rule = 'trypsin' if rng.random() < 0.65 else rng.choice(names)
     if auto is None:
@@ -693,6 +912,8 @@ def check_e2e(c, r):
                             break
         lim = [run['k'], run['mw4'], run['min_len'], run['max_len']]
         lim_out = [run['k'], run['mw4'] + 1, run['min_len'], run['max_len']]
+        if c.get('probe') and i == 0:
+            fastas.append(list(c['probe'])); names.append('probe')
         reqs.append(('c04_hygiene', [run['rule'], resolved_exc(run), lim, prots, fastas, lim_out]))
         slots.append((i, names, fastas))
     return probs, stats, list(zip(reqs, slots))
@@ -716,6 +937,13 @@ def eval_e2e(ctx, cases, tag='c04e'):
                 stats['pool_raises'] += 1
                 continue
             for cmd, seqs, (flags, nodup, ok) in zip(names, fastas, m[1]):
+                if cmd == 'probe':
+                    # engineered peptides: are they canonical according to the C10 model's pool, and were they written?
+                    written = {n: set(f) for n, f in zip(names, fastas) if n != 'probe'}
+                    stats['probe'] = [dict(cmd=pc, E=e, canonical=bool(fl[0]), in_limits=not any(fl[1:]),
+                                           written=e in written.get(pc, set()))
+                                      for pc, e, fl in zip(c['probe_cmds'], seqs, flags)]
+                    continue
                 for s, fl in zip(seqs, flags):
                     for j, b in enumerate(fl):
                         if b:
@@ -827,7 +1055,32 @@ def run(ctx):
     e2e = [c for c in corpus if c['kind'] == 'e2e']
     for i in range(n_e2e):
         e2e.append(gen_e2e_case(rng, names, motif=(i % 3 == 0)))
+    n_col = 400 if ctx.quick else 5000
+    for i in range(n_col):
+        e2e.append(gen_collision_case(rng, control=(i % 4 == 3)))
     results = eval_e2e(ctx, e2e)
+    col = {'cases': 0, 'controls': 0, 'by_form': {}, 'by_layout': {}, 'targets': 0, 'targets_canonical_in_model_pool': 0,
+           'control_targets': 0, 'control_targets_written_by_intended_caller': {}, 'control_targets_by_caller': {}}
+    for c, r, probs, stats, _ in results:
+        if not c.get('collision'):
+            continue
+        cc = c['collision']
+        col['controls' if cc['control'] else 'cases'] += 1
+        key = '%s/%s/%s%s' % (cc['mode'], cc['tag_pattern'], 'nf-first' if cc['nf_first'] else 'nf-second', '/near' if cc['near'] else '')
+        col['by_layout'][key] = col['by_layout'].get(key, 0) + 1
+        for pr in stats.get('probe', []):
+            form = cc['targets'][pr['cmd']]['form']
+            if cc['control']:
+                col['control_targets'] += 1
+                col['control_targets_by_caller'][pr['cmd']] = col['control_targets_by_caller'].get(pr['cmd'], 0) + 1
+                if pr['written']:
+                    col['control_targets_written_by_intended_caller'][pr['cmd']] = col['control_targets_written_by_intended_caller'].get(pr['cmd'], 0) + 1
+            else:
+                col['targets'] += 1
+                col['targets_canonical_in_model_pool'] += 1 if pr['canonical'] else 0
+                k2 = pr['cmd'] + '/' + form
+                d = col['by_form'].setdefault(k2, [0, 0])
+                d[0] += 1; d[1] += 1 if pr['canonical'] else 0
     est = {'cases': len(e2e), 'cmd_runs': 0, 'written_peptides': 0, 'nonempty_fastas': 0, 'errors': {}, 'pool_raises': 0,
            'cases_with_variants': 0, 'variant_tags': {}, 'auto_runs': 0, 'explicit_runs': 0, 'paralog_worlds': 0,
            'motif_worlds': 0, 'rules': {}}
@@ -860,7 +1113,8 @@ def run(ctx):
                                                         what, (' [corpus %s]' % c['corpus']) if c.get('corpus') else ''),
                                'replay_obj': {'kind': 'e2e', 'case': small, 'problems': [p[1] for p in probs][:10]},
                                'no_input': False})
-    dist['e2e'] = len(e2e)
+    dist['e2e'] = len(e2e) - n_col
+    dist['e2e/collision'] = n_col
     samples = []
     for c in (ops[len(ops) // 7], ops[len(ops) // 2]):
         samples.append({k: v for k, v in c.items() if k not in ('mass4', 'base')})
@@ -876,8 +1130,12 @@ def run(ctx):
              'in labels and ids); non-trivial = the implementation wrote at least one record (table/pool) or accepted a peptide (graph '
              'filter). end to end: generated worlds (1 chromosome, 1-3 genes, paralog clone chrP in ~half, exception motifs CK|D CK|Y '
              'RR|H injected in a third) x 1-2 cleavage settings x the three commands, 1-6 SNV/INDEL records in gene coordinates biased '
-             'to I>L / L>I / K,R codons / paralog conversions; non-trivial = at least one peptide was written; distinct by full input',
-        samples=samples, distribution=dist, reach=reach, e2e=est, disagreements=len(bad), violations=violations,
+             'to I>L / L>I / K,R codons / paralog conversions; plus engineered collision worlds (duplicated genes / isoforms encoding '
+             'identical or near-identical proteins with different cds_start_NF tags in either order, and third genes whose variant / '
+             'novel-ORF / W>F peptide equals a canonical peptide in plain, Met-removed, I->L and miscleaved form; canonicity probed in '
+             'the C10 model pool, effectiveness measured on control worlds: see `collision`); non-trivial = at least one peptide was '
+             'written; distinct by full input',
+        samples=samples, distribution=dist, reach=reach, e2e=est, collision=col, disagreements=len(bad), violations=violations,
         assumptions=['table text is ASCII without CR (byte offsets = character offsets, universal-newline translation is the identity)',
                      'the iteration order of Python sets (labels within one FASTA header, records of a VariantPeptidePool) is not modelled: '
                      'headers are compared as sets of entries, pools as sets of records',
